@@ -136,7 +136,7 @@ def cmp_shape(field, drop, swap):
     return ""
 
 
-ob("C12", "K2.cmp_ast.shape", {"field": R(0, 11), "drop": BOOL, "swap": BOOL}, T=300, funcs=["cdd.shared.ast_utils.cmp_ast"],
+ob("C12", "K2.cmp_ast.shape", {"field": R(0, 11), "drop": BOOL, "swap": BOOL}, enum=True, T=300, funcs=["cdd.shared.ast_utils.cmp_ast"],
    bound="a decorated class with bases, keyword, attributes and a method with defaults, keyword-only arguments, list/tuple literals and a call: ANY list-valued field with >= 2 elements "
          "(body, decorators, bases, args, defaults, kw-only args, elements, call arguments, keywords) loses its first or last element in one copy; both argument orders")(cmp_shape)
 
@@ -416,7 +416,7 @@ def sync_thrice(class_state, wrap):
     return ""
 
 
-ob("C12", "K6.sync_thrice", {"class_state": R(0, 3), "wrap": BOOL}, T=900, tpath=200,
+ob("C12", "K6.sync_thrice", {"class_state": R(0, 3), "wrap": BOOL}, enum=True, T=900, tpath=200,
    funcs=["cdd.shared.conformance.ground_truth", "cdd.shared.conformance._conform_filename", "cdd.shared.emit.file.file", "cdd.function.parse.function",
           "cdd.class_.emit.class_", "cdd.argparse_function.emit.argparse_function"],
    assumes=["black.format_str runs for real but OUTSIDE the tracer (its input is concrete; it is a large pure-Python program), because whether the second run rewrites a file "
@@ -510,7 +510,7 @@ def sync_evolve(change, documented):
     return ""
 
 
-ob("C12", "K7.sync_evolves", {"change": R(0, 4), "documented": BOOL}, T=1200, tpath=200,
+ob("C12", "K7.sync_evolves", {"change": R(0, 4), "documented": BOOL}, enum=True, T=1200, tpath=200,
    funcs=["cdd.shared.conformance.ground_truth", "cdd.shared.conformance._conform_filename", "cdd.shared.ast_utils.cmp_ast", "cdd.shared.ast_utils.RewriteAtQuery", "cdd.class_.emit.class_"],
    assumes=["black.format_str runs for real but OUTSIDE the tracer (see K6)"],
    bound="history: sync creates the class from a method truth; then the truth gains a trailing / loses its trailing / gains a leading parameter / changes a default, or the class gains a "
